@@ -1,14 +1,60 @@
-(* Props/C19.v — Context (theorems to follow). *)
-From Coq Require Import ZArith.
-From Dec Require Import L3.Decimal L3.Store L5.Context.
+(* Props/C19.v — Context operations round to the context and latch the first
+   NaN.  Statements only.  `cstep`/`crun` (L5/Context.v) model context.Context:
+   apply the context's precision and mode to the receiver, run the Decimal
+   operation, record an ErrNaN outcome in the latch `cerr`; `latched_op` are
+   the operations that go through the latch. A panic that is not an ErrNaN is
+   the outcome Crash. *)
+From Coq Require Import ZArith QArith List Bool.
+From Dec Require Import L3.Decimal L3.Round L3.Arith L3.Store L3.ArithProofs L5.Context L5.ContextProofs.
 Open Scope Z_scope.
+
+(* every later operation returns its receiver untouched while an error is pending,
+   over arbitrary sequences of operations *)
+Theorem C19_latch_holds : forall ops s c, cerr c = true -> forallb latched_op ops = true ->
+  forall r st, In (r, st) (crun (s, c) ops) -> st = (s, c) /\ r = res_none.
+Proof. exact latch_holds. Qed.
+Print Assumptions C19_latch_holds.
+
+(* ... until Err() is called; the first error wins and Err() reports it *)
+Theorem C19_first_error_wins : forall s c ops, cerr c = true -> forallb latched_op ops = true ->
+  forall st r, In (r, st) (crun (s, c) (ops ++ [CErr])) -> cerr (snd st) = true \/ (r_ints r = [1] /\ fst st = s).
+Proof. exact first_error_wins. Qed.
+Print Assumptions C19_first_error_wins.
+
+(* Err() returns the recorded error exactly once and re-arms the context *)
+Theorem C19_err_once : forall s c,
+  let '(st1, r1) := cstep (s, c) CErr in
+  let '(st2, r2) := cstep st1 CErr in
+  r_ints r1 = [b2z (cerr c)] /\ r_ints r2 = [0] /\ fst st1 = s /\ fst st2 = s /\ cerr (snd st2) = false.
+Proof. exact err_reports_once. Qed.
+Print Assumptions C19_err_once.
+
+(* panics that are not ErrNaN are not swallowed: they are never recorded *)
+Theorem C19_crash_not_latched : forall s c o st' r,
+  cerr c = false -> cstep (s, c) o = (st', r) -> r_out r = Crash -> cerr (snd st') = false.
+Proof. exact crash_not_latched. Qed.
+Print Assumptions C19_crash_not_latched.
+
+(* a receiver distinct from its operands ends up correctly rounded to the context's
+   precision and mode whatever precision and mode it had (Add; the other
+   operations go through the same `capply_ok` + C01 theorem) *)
+Theorem C19_add_rounds_to_context : forall s c z x y,
+  cerr c = false -> z <> x -> z <> y -> (z < length s)%nat ->
+  WF (get s z) -> WF (get s x) -> WF (get s y) ->
+  dform (get s x) = Ffinite -> dform (get s y) = Ffinite ->
+  1 <= cprec c <= MaxPrec ->
+  (dform (get s z) = Ffinite -> mdigits (mant (get s z)) < 4294967296 - 18) ->
+  add_span (get s x) (get s y) + 40 < 4294967296 - 18 ->
+  exists st', cstep (s, c) (CAdd z x y) = (st', res_none) /\ snd st' = c /\
+    AddPost (cprec c) (cmode c) (sval (get s x) + sval (get s y)) (OkR (get (fst st') z)).
+Proof. exact ctx_add_rounds. Qed.
+Print Assumptions C19_add_rounds_to_context.
+
 Example C19_examples :
   let pinf := mkDec [] 0 0 ToNearestEven Exact Finf false in
   let ninf := mkDec [] 0 0 ToNearestEven Exact Finf true in
   let one := mkDec [1000000000000000000] 1 1 ToNearestEven Exact Ffinite false in
   let s := [dec_zero; pinf; ninf; one] in
   map (fun rs => r_ints (fst rs)) (crun (s, ctx_new 5 ToZero) [CAdd 0 1 2; CAdd 0 3 3; CErr; CErr; CAdd 0 3 3])
-  = [[]; []; [1]; [0]; []] /\
-  nth 0 (fst (snd (last (crun (s, ctx_new 5 ToZero) [CAdd 0 1 2; CAdd 0 3 3]) (res_none, (s, ctx_new 5 ToZero))))) one
-  = mkDec [] 0 5 ToZero Exact Fzero false.
-Proof. vm_compute. split; reflexivity. Qed.
+  = [[]; []; [1]; [0]; []].
+Proof. vm_compute. reflexivity. Qed.
